@@ -14,11 +14,11 @@ cd $WT/$MOD
 echo "== demo with change (expect FAIL)"
 GOPROXY=off go test -vet=off -count=1 -timeout 600s -run "^$TEST\$" ./$PKG/ > $OUT/demo_with.log 2>&1; W=$?
 tail -3 $OUT/demo_with.log
-cd $WT; git stash -q; cd $WT/$MOD
+cd $WT; git apply -R $OUT/patch.diff; cd $WT/$MOD
 echo "== demo without change (expect PASS)"
 GOPROXY=off go test -vet=off -count=1 -timeout 600s -run "^$TEST\$" ./$PKG/ > $OUT/demo_without.log 2>&1; WO=$?
 tail -3 $OUT/demo_without.log
-cd $WT; git stash pop -q; cd $WT/$MOD
+cd $WT; git apply $OUT/patch.diff; cd $WT/$MOD
 echo "== existing tests with change"
 mv $WT/$DEMO /tmp/seed_demo_$ID.go
 GOPROXY=off go test -vet=off -count=1 -timeout 25m -json ./$PKG/ $EXTRA > $OUT/tests_with.json 2>/dev/null
